@@ -120,4 +120,15 @@ def subdivideSpecB (avg : Rat) (minSize : Int) (inp out : Table) : List String :
   let allInside := out.all fun r => regions.any (fun m => inside m r)
   (if perRegion then [] else ["subdivide_regions"]) ++ (if allInside then [] else ["subdivide_inside"])
 
+/-- C06 total_range_size: the number of distinct covered bases, counted independently of `merge`: on every chromosome
+    the sorted distinct endpoints cut the line into stretches on which coverage is constant; the covered stretches'
+    lengths are added up. -/
+def coveredCountB (t : Table) : Int :=
+  ((allChroms [t]).map fun c =>
+    let pts := sortDedupInts (endpoints t c)
+    ((pts.zip (pts.drop 1)).map fun ab => if covb t c ab.1 then ab.2 - ab.1 else 0).sum).sum
+
+def totalSpecB (t : Table) (v : Int) : List String :=
+  if v == coveredCountB t then [] else ["total_is_covered_bases"]
+
 end CnvVerif
